@@ -115,6 +115,7 @@ func opsFor(s cstate) []cop {
 func convert(x *mon.Ctx) {
 	selfTest(x)
 	cv := enc.SM2
+	validateShapes(x, cv)
 	lens := []int{1, 2, 31, 32, 33, 64, 65, 200, 256, 1000}
 	reps := 1
 	if x.Thorough() {
@@ -171,18 +172,106 @@ func convert(x *mon.Ctx) {
 					if k.BitLen() < 16 && (kk == "x1lz" && ct.X1.BitLen() > 248 || kk == "y1lz" && ct.Y1.BitLen() > 248) {
 						x.HarnessError("special scalar %v does not give a leading zero byte under the reference", k)
 					}
-					o := newOracle(kp)
-					o.know(ct)
-					var b []byte
-					if st.asn1 {
-						b = ct.ASN1()
-					} else {
-						b = ct.Plain(st.order, st.form)
-					}
-					walk(c, o, ct, m, st, b, "start", 0)
+					walkFrom(c, kp, ct, m, st)
 					c.End()
 				}
 			}
+		}
+	}
+	// C1 with short coordinates: every INTEGER length of the ASN.1 layout, every amount of padding of the plain ones.
+	// (a) the ephemeral scalars of the shape table (1..3 leading zero octets in x1, in y1, in both; top bit of the next octet set / clear)
+	for i, sh := range shapesOf("sm2") {
+		for si, st := range starts {
+			if !x.Thorough() && (sh.rank > 0 || si != i%len(starts) && si != (i+2)%len(starts)) {
+				continue
+			}
+			n := lens[(i+si)%len(lens)]
+			c := x.Begin("convert len=%d k=%d (C1 shape %s) start=%v (all converter chains of depth <= 3)", n, sh.k, sh.label(), st)
+			if c == nil {
+				continue
+			}
+			c.Class("convert/len=%s/C1-shape:%s/start=%v", lenClass(n), sh.label(), st)
+			kp := newKey(cv, pickKey(c, cv, "random"))
+			k := big.NewInt(sh.k)
+			_, _, x2, y2, err := enc.Shared(cv, k, kp.px, kp.py)
+			if err == nil && allZero(enc.Mask(cv, x2, y2, n)) {
+				n++
+			}
+			var ct *enc.Ciphertext
+			var m []byte
+			if err == nil {
+				m = pickMsg(c, []string{"random", "mask", "mask-head"}[(i+si)%3], n, enc.Mask(cv, x2, y2, n))
+				ct, err = enc.Encrypt(cv, k, kp.px, kp.py, m)
+			}
+			if err != nil {
+				c.Inconclusive("reference encryption not applicable: %v", err)
+				c.End()
+				continue
+			}
+			walkFrom(c, kp, ct, m, st)
+			c.Event("conversions_with_shaped_C1", 1)
+			c.End()
+		}
+	}
+	// (b) points C1 with a tiny x (no scalar is known for them: the ciphertext is what a sender who knows k would have
+	// sent, made with the private key): z = 1..31 leading zero octets, next octet with the top bit clear / set
+	for zi, z := range []int{1, 2, 3, 4, 5, 8, 15, 16, 17, 24, 30, 31} {
+		for top := 0; top < 2; top++ {
+			for si, st := range starts {
+				if !x.Thorough() && si != (zi+2*top)%len(starts) {
+					continue
+				}
+				n := lens[(zi+top+si)%len(lens)]
+				c := x.Begin("convert len=%d C1 with x of %d leading zero octets, top bit of the next octet %d, start=%v (all converter chains of depth <= 3)", n, z, top, st)
+				if c == nil {
+					continue
+				}
+				c.Class("convert/len=%s/C1-x:%dz,top=%d/start=%v", lenClass(n), z, top, st)
+				kp := newKey(cv, pickKey(c, cv, "random"))
+				from := new(big.Int).Lsh(big.NewInt(1), uint(8*(32-z)-2+top)) // 0x40.. or 0x80.. in octet z
+				from.Add(from, new(big.Int).Rsh(new(big.Int).SetBytes(c.R.Bytes(32)), uint(8*z+3)))
+				px, py := pointFrom(cv, from, uint(c.R.Intn(2)))
+				if lzx, t := lzOctets(px, 32); lzx != z || t != top {
+					x.HarnessError("constructed x has %d leading zero octets, top bit %d (wanted %d, %d)", lzx, t, z, top)
+				}
+				m := c.R.Bytes(n)
+				ct := forgeFor(kp, px, py, m)
+				if ct != nil && allZero(enc.Mask(cv, ct.X2, ct.Y2, n)) {
+					// step B4 refuses such a ciphertext: take one more byte
+					m = c.R.Bytes(n + 1)
+					ct = forgeFor(kp, px, py, m)
+				}
+				if ct == nil {
+					c.Inconclusive("[d]C1 is the point at infinity")
+					c.End()
+					continue
+				}
+				walkFrom(c, kp, ct, m, st)
+				c.Event("conversions_with_tiny_x", 1)
+				c.End()
+			}
+		}
+	}
+}
+
+// walkFrom walks all converter chains from one serialisation of a reference ciphertext.
+func walkFrom(c *mon.Case, kp *keyPair, ct *enc.Ciphertext, m []byte, st cstate) {
+	o := newOracle(kp)
+	o.know(ct)
+	var b []byte
+	if st.asn1 {
+		b = ct.ASN1()
+	} else {
+		b = ct.Plain(st.order, st.form)
+	}
+	walk(c, o, ct, m, st, b, "start", 0)
+}
+
+// pointFrom finds the point of the curve with the smallest x >= from and the given parity of y.
+func pointFrom(cv enc.Curve, from *big.Int, ybit uint) (x, y *big.Int) {
+	for v := new(big.Int).Set(from); ; v.Add(v, big.NewInt(1)) {
+		if y, ok := cv.Decompress(v, ybit); ok {
+			return v, y
 		}
 	}
 }
